@@ -24,6 +24,10 @@ EXPLANATION = (
 ASSUMPTIONS = ["serializers are pure functions of their argument apart from the injected faults"]
 
 
+class SerBaseBoom(BaseException):
+    """A serializer failure that is no `Exception` (Logger.write catches with a bare except)."""
+
+
 class SerBoom(Exception):
     pass
 
@@ -113,7 +117,7 @@ def body_E1(ctx):
         def ser(v):
             calls[name] = calls.get(name, 0) + 1
             if name in raising:
-                raise [SerBoom, StopIteration, KeyError, TypeError][int(sh.get("ser_exc", 0))](name)
+                raise [SerBoom, StopIteration, KeyError, TypeError, SerBaseBoom][int(sh.get("ser_exc", 0))](name)
             return ["ser", v]
 
         return ser
@@ -175,7 +179,7 @@ def body_E1(ctx):
             window = received[n0:]
             calls_seen = dict(calls)
             ctx_action = expected_parent
-    except Exception as e:
+    except (Exception, SerBaseBoom) as e:
         ctx.fail("the logging call raised %r (kind %s, faults %r)" % (e, kind, status))
     finally:
         for a in reversed(outer):
@@ -240,7 +244,7 @@ OBLIGATIONS = [
         "X",
         desc="every subset of raising serializers / missing declared fields x {stand-alone, start, success} x nesting depth: message withheld, one traceback + one serialization_failure in the current context, call returns, serializers called once",
         functions=["Logger.write", "_MessageSerializer.serialize", "write_traceback", "log_message", "_safe_unicode_dictionary"],
-        shards={"quick": [{"fields": 2, "depth": 2, "ser_exc": e} for e in (0, 1, 2, 3)] + [{"fields": 2, "depth": 1, "falsy": k} for k in (1, 2, 3, 4, 5)], "thorough": [{"fields": 3, "depth": 3, "ser_exc": e} for e in (0, 1, 2, 3)] + [{"fields": 3, "depth": 2, "falsy": k} for k in (1, 2, 3, 4, 5)]},
+        shards={"quick": [{"fields": 2, "depth": 2, "ser_exc": e} for e in (0, 1, 2, 3, 4)] + [{"fields": 2, "depth": 1, "falsy": k} for k in (1, 2, 3, 4, 5)], "thorough": [{"fields": 3, "depth": 3, "ser_exc": e} for e in (0, 1, 2, 3, 4)] + [{"fields": 3, "depth": 2, "falsy": k} for k in (1, 2, 3, 4, 5)]},
         twin=[{"fields": 2, "depth": 2, "twin_label": "fault-nested"}],
         timeout={"quick": 100, "thorough": 600},
         bounds={"quick": "2 declared fields (one custom serializer: ok/raising/missing; one Field.for_types identity field: ok/missing), 3 message kinds, nesting depth 0-2; failing serializers raise a custom exception, StopIteration, KeyError or TypeError; logged values distinct ints, or None / 0 / [] / empty text / False in every assignment to the fields (depth <= 1)", "thorough": "3 declared fields, depth 0-3"},
